@@ -146,7 +146,11 @@ func lockLeakInterleaved(mem *MemoryCache[vmeta], file *FileCache[vmeta]) {
 		c.Cache(vKeys[i], &symReader{data: []byte{byte(i), 1}, failAt: -1}, exp, vmeta{Ver: int64(i)})
 	}
 	k2 := vKeys[symChoice(nk)]
-	kind := symChoice(5)
+	kinds := 5
+	if mem != nil {
+		kinds = 6 // + the memory budget is lowered below what is stored
+	}
+	kind := symChoice(kinds)
 	cfg := kitCfg
 	vSecond(func() {
 		switch kind {
@@ -159,11 +163,17 @@ func lockLeakInterleaved(mem *MemoryCache[vmeta], file *FileCache[vmeta]) {
 		case 3:
 			// another request stores a new resource (and so may fill the cache up again)
 			c.Cache(vKeys[nk], &symReader{data: []byte{8, 8}, failAt: -1}, now.Add(time.Hour), vmeta{Ver: 8})
-		default:
+		case 4:
 			// the operator lowers the limit; the listener goroutines run at once
 			cfg.Cache.MaxCacheSize.Stage(bytesizeOf(2))
 			cfg.Cache.MaxCacheSize.CommitStaged()
 			vRunPending()
+		default:
+			// ... or the memory budget, to nothing
+			cfg.Cache.Memory.MemoryBudgetPercent.Stage(0)
+			cfg.Cache.Memory.MemoryBudgetPercent.CommitStaged()
+			vRunPending()
+			vReach("budget-lowered")
 		}
 	})
 	switch symChoice(4) {
@@ -323,6 +333,12 @@ func concurrentOps(mem *MemoryCache[vmeta], file *FileCache[vmeta]) {
 		vReach("overlapped")
 	}
 	vAssert(vLocksLeaked() == 0, "c14.lock-leaked")
+	// quiescence: the books are right (C12's invariant)
+	if mem != nil {
+		memInvariant(mem, "concurrent")
+	} else {
+		fileInvariant(file, "concurrent")
+	}
 	for i := 0; i < 2; i++ {
 		c.Get(vKeys[i])
 		c.Cache(vKeys[i], &symReader{data: []byte{7}, failAt: -1}, now.Add(time.Hour), vmeta{Ver: 7})
